@@ -15,12 +15,14 @@ Body == M(<< <<U(Zero), T(258, A(<<In(1), In(2)>>))>>, <<U(One), A(<<Out(3, From
              <<U(FromSmall(3)), U(FromSmall(500))>> >>)
 VkeyW(k) == A(<<Bs(H(k, 32)), Bs(H(k + 1, 64))>>)
 NativeS(k) == A(<<U(Zero), Bs(H(k, 28))>>)
+BootW(k) == A(<<Bs(H(k, 32)), Bs(H(k + 1, 64)), Bs(H(k + 2, 32)), Bs(<<160>>)>>)
 \* witness-set variants: which keys are present (with elements) / present but empty / absent
 WsVariants == { M(<<>>),
                 M(<< <<U(Zero), T(258, A(<<VkeyW(9)>>))>> >>),
                 M(<< <<U(Zero), T(258, A(<<>>))>> >>),
                 M(<< <<U(Zero), A(<<VkeyW(9), VkeyW(9)>>)>>, <<U(One), T(258, A(<<NativeS(5)>>))>> >>),
                 M(<< <<U(One), A(<<>>)>> >>),
+                M(<< <<U(Zero), T(258, A(<<VkeyW(9)>>))>>, <<U(FromSmall(2)), T(258, A(<<BootW(20)>>))>> >>),
                 M(<< <<U(FromSmall(2)), T(258, A(<<>>))>>, <<U(FromSmall(4)), T(258, A(<<U(One), U(One)>>))>> >>),
                 M(<< <<U(Zero), T(258, A(<<VkeyW(9)>>))>>, <<U(FromSmall(4)), A(<<>>)>>, <<U(FromSmall(5)), M(<<>>)>> >>),
                 M(<< <<U(FromSmall(5)), A(<<>>)>>, <<U(FromSmall(6)), T(258, A(<<Bs(H(7, 5))>>))>>, <<U(FromSmall(7)), A(<<>>)>> >>) }
